@@ -141,13 +141,14 @@ func fillLines(m *mention, data []byte, failed bool) {
 // ---------------------------------------------------------------- running and judging
 
 type env struct {
-	c    *run.Ctx
-	cs   Case
-	t    *tree
-	root string
-	fpo  string // fingerprint override (witnesses of known defects) ...
-	fpoC map[string]bool // ... for these violation classes only
-	ri   int    // run index inside the case
+	c           *run.Ctx
+	cs          Case
+	t           *tree
+	root        string
+	fpo         string          // fingerprint override (witnesses of known defects) ...
+	fpoC        map[string]bool // ... for these violation classes only
+	ri          int             // run index inside the case
+	quietPauses int
 	// last expectation computed by judge (pinned cases cross-check it by hand)
 	lastWantCode, lastR int
 }
@@ -219,11 +220,18 @@ func (e *env) exec(spec *runSpec, stdin []byte, mentions []mention, unjudged map
 			in = []byte{}
 		}
 		r := run.NewRand(e.cs.Seed, "C06chunks", e.cs.Index, e.ri)
+		quiet := r.Intn(2) == 0 // stdin is batched with a 250 ms flush timer: pauses longer than that, then bursts
 		for pos := 0; pos < len(in); {
 			n := []int{1, 7, 100, 4096, 70000, 1 << 20}[r.Intn(6)]
+			if quiet && pos > 0 && len(chunks) < 40 && r.Intn(2) == 0 && e.quietPauses < 3 {
+				chunks = append(chunks, -320)
+				e.quietPauses++
+				c.Count("stdin_quiet_periods", 1)
+			}
 			chunks = append(chunks, n)
 			pos += n
 		}
+		e.quietPauses = 0
 	}
 	res := spawn(argv, e.root, envv, in, chunks, true, spawnLimit)
 	e.judge(spec, mentions, unjudged, forceErr, res)
